@@ -17,7 +17,7 @@ def run(chk):
 
 def extra(chk, info, res):
     from checks import decisions_common as _dc
-    _dc.tie(chk, ['tank'])
+    _dc.tie(chk, ['tank', 'force_empty'])
     from checks import guards_common
     guards_common.correspondence(chk, ["force_empty", "set_mode", "tank_is_low"])
     from checks import tank_common as tc
